@@ -15,7 +15,7 @@ from symx.vloop import CycleBudget, Deadlock, VLoop
 
 
 def scn(sym, cov, kind, n, modes, cancel=None, native=False, fast=False, eager=False, T=2, J=2, cap=1,
-        retotal=False, intruder=False, reacquire=False, rounds=1, capsym=False):
+        retotal=False, retotal2=False, fixed_s=False, intruder=False, reacquire=False, rounds=1, capsym=False):
     """kind: 'lock' | 'sem' | 'lim';  modes[i]: 'a' blocking acquire, 'n' nowait
     cancel: index of the task to cancel or None;  cap: permits (sem initial value / limiter total)
     retotal: limiter only -- assign total_tokens = nv at a symbolic instant
@@ -25,7 +25,7 @@ def scn(sym, cov, kind, n, modes, cancel=None, native=False, fast=False, eager=F
     from anyio import CancelScope, WouldBlock
 
     loop = VLoop(eager=eager)
-    s = [sym.int("s%d" % i, 0, T) for i in range(n)]
+    s = [0] * n if fixed_s else [sym.int("s%d" % i, 0, T) for i in range(n)]
     h = [sym.int("h%d" % i, 0, T) for i in range(n)]
     if cancel is not None:
         ct = sym.int("ct", 0, 2 * T + 1)
@@ -36,6 +36,9 @@ def scn(sym, cov, kind, n, modes, cancel=None, native=False, fast=False, eager=F
         rt = sym.int("rt", 0, 2 * T + 1)
         rj = sym.int("rj", 0, J)
         nv = sym.int("nv", 0, n + 1)
+    if retotal2:
+        rt2 = sym.int("rt2", 0, 2 * T + 2)
+        nv2 = sym.int("nv2", 1, n)
     if intruder:
         it = sym.int("it", 0, 2 * T + 1)
 
@@ -228,6 +231,16 @@ def scn(sym, cov, kind, n, modes, cancel=None, native=False, fast=False, eager=F
                     prim.total_tokens = 1
 
             loop.env_at(2 * T + 3, 0, restore)
+            if retotal2:
+                def fire_total2():
+                    if nv2 < state["total"]:
+                        state["lowered"] = True
+                        state["credit"] = prim.borrowed_tokens - len(holders)
+                    cov.hit("total-raised-after-lowered-below-borrowed", nv2 > state["total"] and len(holders) > state["total"] and len(waiting) > 0)
+                    state["total"] = nv2
+                    prim.total_tokens = nv2
+
+                loop.env_at(rt2, 0, fire_total2)
         try:
             async with anyio.create_task_group() as tg:
                 for i in range(n):
